@@ -327,7 +327,12 @@ def one_value(draw, v1=False, markers=()):
     size = draw(st.sampled_from([8, 24, 24, 130, 260]))
     tag, h = draw(vs.value(tags=tags, max_octets=size))
     if tag in (vber.T_OCTETS, vber.T_OPAQUE) and kind == 1:
-        h = (b"\xa5" * draw(st.sampled_from([0, 126, 127, 128, 255, 256, 1000]))).hex()
+        h = (b"\xa5" * draw(st.sampled_from([0, 126, 127, 128, 255, 256, 1000, 1000, 16383, 16384, 65535, 65536, 100000]))).hex()
+    if tag == vber.T_OID and kind == 2:
+        # long names: up to the 128 sub-identifiers SMIv2 allows, each up to 2^32-1
+        n = draw(st.sampled_from([30, 64, 126]))
+        arcs = (1, 3) + tuple(draw(st.lists(vs.SUBID, min_size=n, max_size=n)))
+        h = vber.oid_content(arcs).hex()
     return [tag, h]
 
 
